@@ -118,8 +118,8 @@ var c07Requests = func() []Req {
 // (a) owned schedule
 
 type C07Case struct {
-	Start dbgStateJ       `json:"start"`
-	Req   int             `json:"request"`
+	Start dbgStateJ        `json:"start"`
+	Req   int              `json:"request"`
 	Plan  map[string][]COp `json:"plan"` // hand-over point -> operations injected there
 }
 
